@@ -10,11 +10,22 @@ package main
 
 import (
 	"encoding/json"
+	"flag"
 	"os"
 	"runtime/pprof"
 
 	"verif/engine/mc"
 )
+
+// development flag: --depth overrides the tier's search depth (registered runs never set it)
+var depthFlag = flag.Int("depth", 0, "override the search depth (development)")
+
+func pickDepth(c *mc.Ctx, q, t int) int {
+	if *depthFlag > 0 {
+		return *depthFlag
+	}
+	return c.Pick(q, t)
+}
 
 func main() {
 	mc.Main("C38", "model_checking", func(c *mc.Ctx) {
